@@ -41,9 +41,9 @@ def grammar_cpp(g, lexer='tok', ctx=None, ns='g', limits=None, lexer_type=None, 
                     else: ps.append('const term_value<std::string_view>& a%d' % k); args.append('hv::tv(%d, a%d)' % (ti, k))
                 else: ps.append('%s a%d' % (vt, k)); args.append('a%d' % k)
             if f == 'hash':
-                rs.append('%s >= [](%s){ return hv::%s(%s); }' % (head, ', '.join(ps), 'redt' if vt != 'unsigned' else 'red', ', '.join([str(ri)] + args)))
+                rs.append('%s >= [](%s){ return hv::%s(%s); }' % (head, ', '.join(ps), ('redv<%s>' % vt) if vt != 'unsigned' else 'red', ', '.join([str(ri)] + args)))
             else:
-                rs.append('%s >>= [](%s){ hv::ctx_touch(c); return hv::red(%s); }' % (head, ', '.join(['HV_CTX_PARAM c'] + ps), ', '.join([str(ri)] + args)))
+                rs.append('%s >>= [](%s){ hv::ctx_touch(c); return hv::%s(%s); }' % (head, ', '.join(['HV_CTX_PARAM c'] + ps), ('redv<%s>' % vt) if vt != 'unsigned' else 'red', ', '.join([str(ri)] + args)))
         elif f == 'default': rs.append(head)
         elif f in ('e1', 'e2', 'e3'): rs.append('%s >= _%s' % (head, f))
         else: raise Exception(f)
@@ -65,7 +65,7 @@ def parse_wrapper_cpp(g, ns='g', variant='plain', ctxkind=0):
             'hv::state hv::hv_S; const void* hv::hv_ctx_addr = nullptr; unsigned hv::hv_ctx_tag = 0; hv::lex_state hv::hv_L;\n')
     ctxp = {0: 'hv::ctx_t&', 1: 'const hv::ctx_t&', 2: 'hv::ctx_t', 3: 'hv::mo_ctx&&', 4: 'hv::ctx_t&'}[ctxkind]
     head += '#define HV_CTX_PARAM %s\n' % ctxp
-    head += grammar_cpp(g, ns=ns, lexer_type=lexer_type, vt=('hv::trk' if variant == 'trk' else 'unsigned')) + '\n'
+    head += grammar_cpp(g, ns=ns, lexer_type=lexer_type, vt=('hv::trk' if variant == 'trk' else 'hv::trk' if variant == 'trkctx' else 'unsigned')) + '\n'
     setup = ('    char b[LEN + 1];\n'
              '    for (int i = 0; i < LEN; i++) b[i] = (char)in[i];\n'
              '    b[LEN] = 0;\n'
@@ -88,6 +88,13 @@ def parse_wrapper_cpp(g, ns='g', variant='plain', ctxkind=0):
         body = setup + '    auto r = %s::p.parse(o, cstring_buffer<LEN + 1>(b), s);\n' % ns + fin.replace('*r : 0u', 'r->v : 0u') + '    if (r.has_value() && r->st != 1) out[O_FLAGS] |= 16u;\n    out[O_CTX] = hv::hv_S.moves;\n'
     elif variant == 'plain':
         body = setup + '    auto r = %s::p.parse(o, cstring_buffer<LEN + 1>(b), s);\n' % ns + fin
+    elif variant == 'trkctx':
+        body = setup + ('    hv::ctx_t cx; cx.tag = 5; hv::hv_ctx_tag = 5; hv::hv_ctx_addr = (const void*)&cx;\n'
+                        '    auto r = %s::p.context_parse(cx, o, cstring_buffer<LEN + 1>(b), s);\n    out[O_CTX] = cx.counter;\n' % ns) + fin.replace('*r : 0u', 'r->v : 0u')
+    elif variant == 'slice':
+        body = setup + ('    hv::slice_buf<LEN> ub; for (int i = 0; i < LEN; i++) ub.data[i] = b[i];\n'
+                        '    ub.data[LEN] = (char)(opts >> 8); ub.data[LEN + 1] = (char)(opts >> 16);     // what happens to lie behind the caller\'s text: solver-chosen, not NUL\n'
+                        '    auto r = %s::p.parse(o, ub, s);\n' % ns) + fin
     elif variant == 'hist':
         body = setup + ('    {   // an earlier call on the same parser object with another input (reversed, low bit flipped): successful, failing and recovering priors all occur\n'
                         '        char b2[LEN + 1]; for (int i = 0; i < LEN; i++) b2[i] = (char)(b[LEN - 1 - i] ^ 1); b2[LEN] = 0;\n'
